@@ -70,10 +70,37 @@ impl Property for C04 {
         "C04"
     }
     fn cases(&self, cfg: &Cfg) -> u64 {
-        Plan::for_tier(cfg.tier, 3_000, 300_000).cases()
+        Plan::for_tier(cfg.tier, 3_000, 300_000).cases() + cfg.tier.pick(180, 5_400)
     }
     fn run_case(&self, cfg: &Cfg, i: u64, acc: &mut Acc) {
         let plan = Plan::for_tier(cfg.tier, 3_000, 300_000);
+        if i >= plan.cases() {
+            // sessions that END in a transport fault: whatever the client completely read before the end must still
+            // have been delivered (a failing write of the re-arming idle, a read error after the reply, ...)
+            let k = i - plan.cases();
+            let mut sc = super::c08::base_script([0, 6, 13][(k % 3) as usize], k / 3 % 3);
+            sc.notifications.push((std::time::Duration::from_millis(40), vec!["database".into(), "update".into(), "frobnicator".into()]));
+            sc.notifications.sort_by_key(|(t, _)| *t);
+            sc.world.fault = if k / 9 % 2 == 0 {
+                crate::sim::world::Fault::WriteErrFrom((1 + k / 18 % 6) as usize)
+            } else {
+                crate::sim::world::Fault::ReadErrAfter(sc.world.greeting.len() as u64 + crate::util::rng::mix(&[cfg.seed, k]) % 120)
+            };
+            let out = sess::run(&sc);
+            acc.inc("evaluations");
+            acc.inc("sessions_ending_in_a_fault");
+            for p in &out.panics {
+                acc.violation(i, None, format!("panic: {}", p), sess::detail(&sc, &out));
+                return;
+            }
+            if !out.fault_fired || !matches!(out.connect, Some(Ok(_))) {
+                return;
+            }
+            let a = Analysis::new(&out);
+            acc.inc("fault_sessions_events_checked");
+            check(acc, i, &sc, &out, &a, true);
+            return;
+        }
         let mut sc = plan.scenario(cfg, i);
         // denser notification schedules for this property
         if sc.name == "random" && i % 2 == 0 {
@@ -95,7 +122,25 @@ impl Property for C04 {
         for h in &out.hung {
             acc.violation(i, None, format!("{} never completed in a fault-free session", h), sess::detail(&sc, &out));
         }
-        let failed = check(acc, i, &sc, &out, &a, true).is_some();
+        let mut failed = check(acc, i, &sc, &out, &a, true).is_some();
+        // a fault-free session reaches a quiescent end at which the transport has delivered everything the server
+        // wrote: whatever was reported must have arrived by then (a client that gave up on valid input stops reading,
+        // so its missing events would not count as "completely delivered" above)
+        if !failed && sc.keep_events && sc.epilogue && out.hung.is_empty() {
+            // (with an unpolled receiver the driver does not wait for the final probe notification to arrive)
+            let reported: usize = a.replies.iter().filter(|r| matches!(r.kind, ReplyKind::Idle | ReplyKind::Noidle) && !(sc.events_lazy && r.changed.iter().any(|c| c == "epilogue_probe"))).map(|r| r.changed.len()).sum();
+            let events = a.log().iter().filter(|e| matches!(e.kind, EvKind::EventChange(_))).count();
+            let closing = a.log().iter().find_map(|e| if let EvKind::EventClosed(c) = &e.kind { Some(c.clone()) } else { None });
+            if events < reported || closing.is_some() {
+                failed = true;
+                acc.violation(
+                    i,
+                    None,
+                    format!("fault-free session: the server reported {} change(s) in idle/noidle replies, {} event(s) arrived{} (the client stopped reading {} bytes before the end of the server's output)", reported, events, closing.map(|c| format!(", closing event {}", c)).unwrap_or_default(), out.s2c_len.saturating_sub(a.total_delivered())),
+                    sess::detail(&sc, &out),
+                );
+            }
+        }
         if !failed && acc.want_sample() && cov.p8_multi_changed_reply && out.log.len() < 70 {
             acc.sample(i, J::obj().set("scenario", sc.name.clone()).set("log", J::Arr(out.render_log(70).into_iter().map(J::Str).collect())));
         }
@@ -104,9 +149,10 @@ impl Property for C04 {
         let mut floors = sess::coverage_floors(cfg.tier);
         floors.push(("replies_with_2plus_changed_lines".into(), 20));
         floors.push(("events_received".into(), 1000));
+        floors.push(("fault_sessions_events_checked".into(), 50));
         Meta {
             level: "exploration",
-            rule: "same session engine and scenarios as C05 with denser notification schedules (1-6 changes per reply over the 14 documented names, unknown names incl. case variants and a 230-byte name, duplicates under list semantics, changes while a request is in flight, inside the re-idle window, while noidle is in transit, idle replies chopped per line / per byte with delays so that requests arrive between and inside `changed:` lines); oracle: the sequence of SubsystemChange events (as_str) from ConnectionEvents::next must equal the concatenation of the `changed:` lines of all idle/noidle replies the simulated server wrote and the transport completely delivered, checked at the quiescent end of the session (after a probe notification); non-trivial = session with overlap (P1,P2,P6,P7,P9,P12) or a reply with >=2 changed lines; distinct by interleaving signature".into(),
+            rule: "same session engine and scenarios as C05 with denser notification schedules (1-6 changes per reply over the 14 documented names, unknown names incl. case variants and a 230-byte name, duplicates under list semantics, changes while a request is in flight, inside the re-idle window, while noidle is in transit, idle replies chopped per line / per byte with delays so that requests arrive between and inside `changed:` lines); oracle: the sequence of SubsystemChange events (as_str) from ConnectionEvents::next must equal the concatenation of the `changed:` lines of all idle/noidle replies the simulated server wrote and the transport completely delivered, checked at the quiescent end of the session (after a probe notification); plus sessions that end in a transport fault (failing write from the n-th write call on, read error after k bytes) over notification-heavy scripts, where every change of a reply the client completely read must still arrive; non-trivial = session with overlap (P1,P2,P6,P7,P9,P12) or a reply with >=2 changed lines; distinct by interleaving signature".into(),
             nontrivial_set: "nontrivial",
             assumptions: vec![
                 "a reply may carry duplicates or unknown names (legal server output for the property's quantifier)".into(),
